@@ -11,6 +11,7 @@ import HpxVerif.Model.Hash
 import HpxVerif.Model.Bilinear
 import HpxVerif.Model.C2V
 import HpxVerif.Model.Once
+import HpxVerif.Model.Ring
 
 namespace Hpx.Driver
 
@@ -183,6 +184,14 @@ def onceOp (n : Nat) (sched : List Nat) : String :=
 
 def stepRest (st : St) (toks : List String) : St × String :=
   match toks with
+  | ["rhash", n, lon, lat] => (st, optNat (Ring.hash st.debug (nat! n) (fl lon) (fl lat)))
+  | ["rhashdxdy", n, lon, lat] =>
+    (st, match Ring.hashWithDxDy st.debug (nat! n) (fl lon) (fl lat) with
+      | some (h, dx, dy) => s!"{h} {fb dx} {fb dy}"
+      | none => "panic")
+  | ["rcenter", n, h] => (st, optPairF (Ring.center st.debug (nat! n) (nat! h)))
+  | ["rcpc", n, h] => (st, optPairF (Ring.centerOfProjectedCell st.debug (nat! n) (nat! h)))
+  | ["rsphcoo", n, h, dx, dy] => (st, optPairF (Ring.sphCoo st.debug (nat! n) (nat! h) (fl dx) (fl dy)))
   | "once" :: n :: sched => (st, onceOp (nat! n) (sched.map nat!))
   | ["c2v", d, lon, lat] => (st, match C2V.largestC2V st.debug (nat! d) (fl lon) (fl lat) with | some v => fb v | none => "panic")
   | ["c2vr", d, lon, lat, r] => (st, match C2V.largestC2VWithRadius st.debug (nat! d) (fl lon) (fl lat) (fl r) with | some v => fb v | none => "panic")
